@@ -85,6 +85,7 @@ def membership(item):
 
 # ------------------------------------------------------------------ 2. optimisers grid
 WVALS = [-1.0, 0.0, 0.3, 1.0, 2.0]
+WODD = [float('nan'), None]      # a forecast that does not exist yet: still one of the assets the optimiser is given
 
 
 def optimisers(item):
@@ -94,11 +95,22 @@ def optimisers(item):
     w = dict(zip(keys, vals))
     case = {'kind': 'optimiser', 'weights': w}
     viols = []
-    got = FixedWeightPortfolioOptimiser()(T0, initial_weights=dict(w))
-    if dict(got) != w:
+    def same(a, b):
+        return a is b or a == b or (isinstance(a, float) and isinstance(b, float) and a != a and b != b)
+    try:
+        got = FixedWeightPortfolioOptimiser()(T0, initial_weights=dict(w))
+    except Exception as e:  # noqa
+        got = None
+        viols.append({'clause': 'C19.fixed_weight_optimiser', 'detail': {'error': repr(e), 'want': w}, 'case': case})
+    if got is not None and (set(got.keys()) != set(w.keys()) or not all(same(got[k], w[k]) for k in w)):
         viols.append({'clause': 'C19.fixed_weight_optimiser', 'detail': {'got': dict(got), 'want': w}, 'case': case})
     for scale in (0.5, 1.0, 2.0):
-        got = EqualWeightPortfolioOptimiser(scale=scale)(T0, initial_weights=dict(w))
+        try:
+            got = EqualWeightPortfolioOptimiser(scale=scale)(T0, initial_weights=dict(w))
+        except Exception as e:  # noqa
+            viols.append({'clause': 'C19.equal_weight_optimiser', 'detail': {'error': repr(e), 'scale': scale, 'input': w},
+                          'case': case})
+            break
         vals2 = list(got.values())
         ok = (set(got.keys()) == set(w.keys()) and all(close(v, vals2[0]) for v in vals2) and close(sum(vals2), scale))
         if not ok:
@@ -283,6 +295,14 @@ def run(tier, res, is_known):
         for keys in itertools.combinations(NAMES, n):
             for vals in itertools.product(WVALS, repeat=n):
                 opt_items.append((keys, vals))
+    # weights that are NaN or None (no forecast yet) are weights of assets the optimiser was given all the same
+    for n in (1, 2, 3):
+        for keys in itertools.combinations(NAMES, n):
+            for pos in range(n):
+                for odd in WODD:
+                    for other in (0.3, 1.0):
+                        vals = tuple(odd if i == pos else other for i in range(n))
+                        opt_items.append((keys, vals))
     product(optimisers, opt_items, res, is_known, label='optimiser grid')
     product(per_session_item, session_items(tier), res, is_known, label='sessions', chunk=1)
     product(static_with_signals, [{'late': k, 'long_only': lo} for k in (4, 6) for lo in (True, False)], res, is_known,
